@@ -26,11 +26,12 @@ def verify_F(prop):
     for entry in FRAMES:
         mod, qual, modifies, fresh, props = entry[:5]
         may_share = entry[5] if len(entry) > 5 else ()
+        keep_el = entry[6] if len(entry) > 6 else ()
         if prop not in props:
             continue
         t0 = time.time()
         try:
-            obl, s = frame.check_frame(mod, qual, modifies, fresh, may_share)
+            obl, s = frame.check_frame(mod, qual, modifies, fresh, may_share, keep_el)
         except Exception as e:
             out.append(Verdict('frame', 'F', 'undecided', f'analysis error: {type(e).__name__}: {e}', time.time() - t0, f'{mod}.{qual}', 'frame'))
             continue
